@@ -1,7 +1,9 @@
 (* C05 — Define'd parameters and ModelAlias'd models mean exactly their expansion.
-   Statement-list level (model Dec/Post.v); the text -> statement-list step is the front end (see C01). *)
+   Statement-list level (model Dec/Post.v), then lifted to texts (C05_text_level, over Dec/Whole.v = the front-end model of
+   C02 followed by Dec/Post.v; the front-end model is tied to Lark by correspondence, see C01/C02). *)
 From Coq Require Import String List Bool ZArith QArith.
-From DL Require Import Lib.Val Lib.PyDict Dec.Num Dec.Tables Dec.Syntax Dec.Post Dec.PostProofs.
+From DL Require Import Lib.Val Lib.PyDict Dec.Num Dec.Tables Dec.Syntax Dec.Post Dec.PostProofs
+  Dec.Layout Dec.ItemParser Dec.FrontEnd Dec.LayoutProofs Dec.ItemParserProofs Dec.FrontEndProofs Dec.Whole Gen.GenLayout.
 Import ListNotations.
 Close Scope Q_scope.
 Open Scope string_scope.
@@ -46,3 +48,30 @@ Proof.
   intros n lit [H|[H|[H|[H|[H|[]]]]]]; inversion H; reflexivity.
 Qed.
 Print Assumptions C05_undefined_word_verbatim.
+
+(* the same about texts: s is any spelling of any layout of the file f, s' any spelling of any layout of the file with every
+   use replaced by what it stands for (the two texts may also differ in layout and comments).  They are read to the same
+   result: same tables, or the same error. *)
+Theorem C05_text_level : forall ccdb sc inc f its s its' s', lits_numeric f ->
+  file_items (lc_kind gen_cfg) (lc_alts gen_cfg) f its -> spell (lc_label gen_cfg) (lc_ws gen_cfg) its s ->
+  file_items (lc_kind gen_cfg) (lc_alts gen_cfg) (expand_src f) its' -> spell (lc_label gen_cfg) (lc_ws gen_cfg) its' s' ->
+  parse_dec_text ccdb sc inc s' = parse_dec_text ccdb sc inc s.
+Proof.
+  intros ccdb sc inc f its s its' s' Hn F Sp F' Sp'.
+  rewrite (parse_dec_text_layout ccdb sc inc f its s F Sp), (parse_dec_text_layout ccdb sc inc _ its' s' F' Sp').
+  rewrite (expansion_same_tables ccdb sc inc f Hn). reflexivity.
+Qed.
+Print Assumptions C05_text_level.
+
+(* non-vacuity at text level: a text using a Define'd name (also negated) and a ModelAlias, and its textual expansion *)
+Example C05_text_example :
+  let nl := String LF "" in
+  parse_dec_text (fun n => n) (fun _ => None) true
+    ("Define dm 0.5" ++ nl ++ "ModelAlias MyM VSS dm 2.0;" ++ nl ++ "Decay A" ++ nl ++ "1.0 x y MyM;" ++ nl ++ "0.5 x PHSP -dm foo;" ++ nl ++ "Enddecay" ++ nl)
+  = parse_dec_text (fun n => n) (fun _ => None) true
+    ("Decay A" ++ nl ++ "1.0 x y VSS 0.5 2.0;" ++ nl ++ "0.5 x PHSP -0.5 foo;" ++ nl ++ "Enddecay" ++ nl)
+  /\ parse_dec_text (fun n => n) (fun _ => None) true
+    ("Decay A" ++ nl ++ "1.0 x y VSS 0.5 2.0;" ++ nl ++ "0.5 x PHSP -0.5 foo;" ++ nl ++ "Enddecay" ++ nl)
+  = Some (inl [("A", [{| l_bf := 1; l_fs := ["x"; "y"]; l_photos := false; l_model := "VSS"; l_params := Some [PNum (1#2); PNum 2] |};
+                      {| l_bf := 1#2; l_fs := ["x"]; l_photos := false; l_model := "PHSP"; l_params := Some [PNum (-1#2); PWord "foo"] |}])]).
+Proof. vm_compute. split; reflexivity. Qed.
